@@ -174,6 +174,11 @@ MUTANTS = [
  ("c07-year-d4", "C07", "", "utils/html.go", "`(?P<year>\\d\\d\\d\\d)` +", "`(?P<year>\\d{4})` +"),
  ("c07-year-unbounded", "C07", "C07.R14", "utils/html.go", "`(?P<year>\\d\\d\\d\\d)` +", "`(?P<year>\\d+)` +"),
  ("c02-fixedheight-page", "C02", "C02.R15", "html/layout/blocks.go", "if overflows(box.PositionY+box.Height.V(), positionY) {", "if context.overflowsPage(box.PositionY+box.Height.V(), positionY) {"),
+ ("c16-viewport-local", "C16", "", "html/boxes/build.go", "\trootBox.Box().ViewportOverflow = string(chosenBox.Box().Style.GetOverflow())\n\tchosenBox.Box().Style.SetOverflow(\"visible\")\n", "\tchosen := chosenBox.Box()\n\trootBox.Box().ViewportOverflow = string(chosen.Style.GetOverflow())\n\tchosen.Style.SetOverflow(\"visible\")\n"),
+ ("c01-root-flag-form", "C01", "", "html/boxes/build.go", "\tif style.GetFloat() == \"footnote\" && state != nil {\n", "\tisRoot := state == nil\n\tif style.GetFloat() == \"footnote\" && !isRoot {\n"),
+ ("c14-critical-isnan-form", "C14", "", "svg/bounding_box.go", "\t\tif !(0 <= t && t <= 1) {\n\t\t\tcontinue\n\t\t}\n", "\t\tif t < 0 || t > 1 || math.IsNaN(float64(t)) {\n\t\t\tcontinue\n\t\t}\n"),
+ ("c18-radii-clamp-form", "C18", "", "svg/elements.go", "\trx, ry := e.radii(dims)\n\tif rx <= 0 || ry <= 0 { // a negative radius is invalid\n\t\treturn nil\n\t}\n", "\trx, ry := e.radii(dims)\n\tif rx < 0 {\n\t\trx = 0\n\t}\n\tif ry < 0 {\n\t\try = 0\n\t}\n\tif rx == 0 || ry == 0 {\n\t\treturn nil\n\t}\n"),
+ ("c01-repeat-maxint-form", "C01", "", "css/counters/counters.go", "\t\tif repetitions < 0 || repetitions > maxSymbolRepeat {\n\t\t\treturn \"\", false\n\t\t}\n\t\tparts = append(parts, strings.Repeat(symbol(vs.NamedString), repetitions))", "\t\tif repetitions > maxSymbolRepeat {\n\t\t\treturn \"\", false\n\t\t}\n\t\tparts = append(parts, strings.Repeat(symbol(vs.NamedString), utils.MaxInt(0, repetitions)))"),
 ]
 
 def main():
